@@ -600,12 +600,13 @@ Section Today.
 Variable draw : Z -> nat -> float.
 Variable lin : Z -> rdd.
 Variable parts : list (list Z).
+Variable Sd : Z -> Prop.
 
 Notation lx := (lexec draw).
 Notation dal := (do_act_l draw).
 Notation fl := (force_l draw).
 Notation eval := (eval draw).
-Notation cache_ok := (cache_ok draw lin parts).
+Notation cache_ok := (cache_ok_on draw Sd lin parts).
 
 Lemma compile_local r : forall k, prog_local k = true -> prog_local (compile today r k) = true.
 Proof.
@@ -650,14 +651,14 @@ Lemma cache_ok_set c id n p d :
   cache_ok c -> nth_error parts n = Some p -> d = eval (lin id) (Z.of_nat n) p ->
   cache_ok (c_set c (id, Z.of_nat n) d).
 Proof.
-  intros Hc Hn Hd k d' Hin. destruct (c_set_In _ _ _ _ _ Hin) as [H|[H1 H2]]; [auto|].
+  intros Hc Hn Hd k d' Hin HS. destruct (c_set_In _ _ _ _ _ Hin) as [H|[H1 H2]]; [apply Hc; auto|].
   subst k d'. exists n, p. simpl. auto.
 Qed.
 
 Lemma cache_ok_get c id n p d :
-  cache_ok c -> nth_error parts n = Some p -> c_get c (id, Z.of_nat n) = Some d -> d = eval (lin id) (Z.of_nat n) p.
+  cache_ok c -> Sd id -> nth_error parts n = Some p -> c_get c (id, Z.of_nat n) = Some d -> d = eval (lin id) (Z.of_nat n) p.
 Proof.
-  intros Hc Hn Hg. destruct (Hc _ _ (c_get_In _ _ _ Hg)) as (n' & p' & E & Hn' & Hd). simpl in *.
+  intros Hc HS Hn Hg. destruct (Hc _ _ (c_get_In _ _ _ Hg) HS) as (n' & p' & E & Hn' & Hd). simpl in *.
   apply Nat2Z.inj in E. subst n'. congruence.
 Qed.
 
@@ -670,19 +671,19 @@ Fixpoint adds (r : rdd) (i : Z) (p : list Z) (c : cache) : cache :=
   | Persist id r' => if c_has c (id, i) then c else c_set (adds r' i p c) (id, i) (eval r' i p)
   end.
 
-Lemma exec_compile n p (Hn : nth_error parts n = Some p) r :
-  wf lin r -> forall k l, val_local l -> l_crash l = false -> cache_ok (l_cache l) ->
+Lemma exec_compile_on n p (Hn : nth_error parts n = Some p) r :
+  wf lin r -> (forall id, In id (ids r) -> Sd id) -> forall k l, val_local l -> l_crash l = false -> cache_ok (l_cache l) ->
   exists c' v',
     lx (Z.of_nat n) p (compile today r k) l = lx (Z.of_nat n) p k (mk c' v' l) /\
     forallb lop_local (v_pend v') = true /\
     fl (v_pend v') (v_base v') = eval r (Z.of_nat n) p /\
     cache_ok c' /\ c' = adds r (Z.of_nat n) p (l_cache l).
 Proof.
-  induction r as [|f r IH|id r IH|s fr r IH]; simpl; intros Hwf k l Hl Hcr Hc.
+  induction r as [|f r IH|id r IH|s fr r IH]; simpl; intros Hwf HS k l Hl Hcr Hc.
   - exists (l_cache l), {| v_base := p; v_pend := [] |}.
     rewrite lexec_act by (auto; simpl; auto). split; [|simpl; auto].
     unfold do_act_l, mk; simpl. unfold set_val. rewrite Hcr. reflexivity.
-  - destruct (IH Hwf (PAct (APush (LMap f)) k) l Hl Hcr Hc) as (c1 & v1 & E & Hv1 & Hf1 & Hc1 & Ha1).
+  - destruct (IH Hwf HS (PAct (APush (LMap f)) k) l Hl Hcr Hc) as (c1 & v1 & E & Hv1 & Hf1 & Hc1 & Ha1).
     exists c1, {| v_base := v_base v1; v_pend := v_pend v1 ++ [LMap f] |}.
     rewrite E, lexec_act by (auto; simpl; auto). split; [reflexivity|]. simpl.
     split; [rewrite forallb_app, Hv1; reflexivity|]. split; auto.
@@ -695,9 +696,9 @@ Proof.
       { unfold do_act_l; simpl. rewrite Eg. simpl. unfold set_val, mk. rewrite Hcr. reflexivity. }
       rewrite lexec_act by (auto; rewrite Ea; reflexivity). rewrite Ea, lexec_gate.
       exists (l_cache l), {| v_base := d; v_pend := [] |}. split; [reflexivity|]. simpl. split; auto. split; auto.
-      unfold force_l; simpl. rewrite <- Hlin. eapply cache_ok_get; eauto.
+      unfold force_l; simpl. rewrite <- Hlin. eapply cache_ok_get; eauto; apply HS; left; reflexivity.
     + rewrite lexec_gate.
-      destruct (IH Hwf (PAct AForce (PGate L_add (PAct (AAdd id) (PGate L_cm (PGate L_ret k))))) l Hl Hcr Hc)
+      destruct (IH Hwf (fun j Hj => HS j (or_intror Hj)) (PAct AForce (PGate L_add (PAct (AAdd id) (PGate L_cm (PGate L_ret k))))) l Hl Hcr Hc)
         as (c1 & v1 & E & Hv1 & Hf1 & Hc1 & Ha1).
       rewrite E.
       assert (Hl1 : val_local (mk c1 v1 l)) by exact Hv1.
@@ -709,7 +710,7 @@ Proof.
       split; [reflexivity|]. simpl. split; auto. split; [reflexivity|]. split; [|rewrite Ha1; reflexivity].
       apply cache_ok_set with (p := p); auto. rewrite Hlin. reflexivity.
   - rewrite !lexec_gate.
-    destruct (IH Hwf (PGate L_gen (PAct (APushSampOwn s fr) k)) l Hl Hcr Hc) as (c1 & v1 & E & Hv1 & Hf1 & Hc1 & Ha1).
+    destruct (IH Hwf HS (PGate L_gen (PAct (APushSampOwn s fr) k)) l Hl Hcr Hc) as (c1 & v1 & E & Hv1 & Hf1 & Hc1 & Ha1).
     exists c1, {| v_base := v_base v1; v_pend := v_pend v1 ++ [LSampOwn (s + Z.of_nat n) fr] |}.
     rewrite E, lexec_gate, lexec_act by (auto; simpl; auto). split; [reflexivity|]. simpl.
     split; [rewrite forallb_app, Hv1; reflexivity|]. split; auto.
@@ -719,14 +720,14 @@ Qed.
 Definition linit (c : cache) : lstate :=
   {| l_cache := c; l_val := {| v_base := []; v_pend := [] |}; l_res := None; l_crash := false |}.
 
-Lemma task_today n p r tf c0 :
-  nth_error parts n = Some p -> wf lin r -> tfun_pure tf = true -> cache_ok c0 ->
+Lemma task_today_on n p r tf c0 :
+  nth_error parts n = Some p -> wf lin r -> (forall id, In id (ids r) -> Sd id) -> tfun_pure tf = true -> cache_ok c0 ->
   let lf := lx (Z.of_nat n) p (task_prog today r tf) (linit c0) in
   l_res lf = Some (apply_tfun tf (eval r (Z.of_nat n) p)) /\ l_crash lf = false /\ cache_ok (l_cache lf) /\
   l_cache lf = adds r (Z.of_nat n) p c0.
 Proof.
-  intros Hn Hwf Htf Hc. unfold task_prog.
-  destruct (exec_compile n p Hn r Hwf (PAct (AFinish tf) PDone) (linit c0) eq_refl eq_refl Hc)
+  intros Hn Hwf HS Htf Hc. unfold task_prog.
+  destruct (exec_compile_on n p Hn r Hwf HS (PAct (AFinish tf) PDone) (linit c0) eq_refl eq_refl Hc)
     as (c1 & v1 & E & Hv1 & Hf1 & Hc1 & Ha1).
   simpl. rewrite E.
   assert (Hl1 : val_local (mk c1 v1 (linit c0))) by exact Hv1.
@@ -735,6 +736,15 @@ Proof.
 Qed.
 
 End Today.
+
+Lemma task_today draw lin parts n p r tf c0 :
+  nth_error parts n = Some p -> wf lin r -> tfun_pure tf = true -> cache_ok draw lin parts c0 ->
+  let lf := lexec draw (Z.of_nat n) p (task_prog today r tf) (linit c0) in
+  l_res lf = Some (apply_tfun tf (eval draw r (Z.of_nat n) p)) /\ l_crash lf = false /\ cache_ok draw lin parts (l_cache lf) /\
+  l_cache lf = adds draw r (Z.of_nat n) p c0.
+Proof.
+  intros Hn Hwf Htf Hc. apply (task_today_on draw lin parts (fun _ => True)); auto.
+Qed.
 
 (* ------------------------------------------------------------------------------------------- *)
 (* jobs *)
@@ -760,22 +770,23 @@ Section Jobs.
 Variable draw : Z -> nat -> float.
 Variable lin : Z -> rdd.
 Variable parts : list (list Z).
-Notation cache_ok := (cache_ok draw lin parts).
+Variable Sd : Z -> Prop.
+Notation cache_ok := (cache_ok_on draw Sd lin parts).
 
-Lemma cache_ok_sub c c' : (forall k d, In (k, d) c' -> In (k, d) c) -> cache_ok c -> cache_ok c'.
-Proof. intros H Hc k d Hin. apply Hc, H, Hin. Qed.
+Lemma cache_ok_sub_on c c' : (forall k d, In (k, d) c' -> In (k, d) c) -> cache_ok c -> cache_ok c'.
+Proof. intros H Hc k d Hin HS. apply Hc; auto. Qed.
 
-Lemma cache_ok_update c delta : cache_ok c -> cache_ok delta -> cache_ok (c_update c delta).
-Proof. intros Hc Hd k d Hin. destruct (c_update_In _ _ _ _ Hin); auto. Qed.
+Lemma cache_ok_update_on c delta : cache_ok c -> cache_ok delta -> cache_ok (c_update c delta).
+Proof. intros Hc Hd k d Hin HS. destruct (c_update_In _ _ _ _ Hin); [apply Hc | apply Hd]; auto. Qed.
 
-Lemma fold_join_ok ts : forall d,
+Lemma fold_join_ok_on ts : forall d,
   (forall t, In t ts -> cache_ok (l_cache (t_l t))) -> cache_ok d ->
   cache_ok (fold_left (fun d t => c_update d (delta t)) ts d).
 Proof.
   induction ts as [|t ts IH]; simpl; intros d Ht Hd; auto.
   apply IH; [intros; apply Ht; auto|].
-  apply cache_ok_update; auto.
-  eapply cache_ok_sub; [|apply (Ht t); auto]. unfold delta. apply c_not_in_In.
+  apply cache_ok_update_on; auto.
+  eapply cache_ok_sub_on; [|apply (Ht t); auto]. unfold delta. apply c_not_in_In.
 Qed.
 
 Lemma init_state_eq b p0 driver sh :
@@ -849,26 +860,44 @@ Qed.
 Lemma task_prog_local r tf : tfun_pure tf = true -> prog_local (task_prog today r tf) = true.
 Proof. intros H. unfold task_prog. apply compile_local. simpl. rewrite H. reflexivity. Qed.
 
-Theorem dist_job r tf driver : wf lin r -> tfun_pure tf = true -> cache_ok driver ->
+Theorem dist_job_on r tf driver : wf lin r -> (forall id, In id (ids r) -> Sd id) -> tfun_pure tf = true -> cache_ok driver ->
   forall b sched sh,
   let o := run_job draw b today r tf parts sched driver sh in
   o_results o = spec_results draw r tf parts /\ cache_ok (o_driver o) /\ o_shared o = sh.
 Proof.
-  intros Hwf Htf Hd b sched sh. unfold run_job.
+  intros Hwf HS Htf Hd b sched sh. unfold run_job.
   destruct (job_final b (task_prog today r tf) sched driver sh (task_prog_local r tf Htf)) as [Hsh Ht].
   simpl. rewrite Ht, Hsh. clear Ht Hsh.
   assert (Hclone : forall i, cache_ok (c_clone driver i)).
-  { intros i. eapply cache_ok_sub; [|exact Hd]. apply c_clone_In. }
+  { intros i. eapply cache_ok_sub_on; [|exact Hd]. apply c_clone_In. }
   split; [|split].
   - unfold spec_results. rewrite map_map. apply map_ext_in. intros [i p] Hin. simpl.
-    destruct (task_today draw lin parts i p r tf (c_clone driver (Z.of_nat i)) (In_combine_seq0 _ _ _ Hin) Hwf Htf (Hclone _))
+    destruct (task_today_on draw lin parts Sd i p r tf (c_clone driver (Z.of_nat i)) (In_combine_seq0 _ _ _ Hin) Hwf HS Htf (Hclone _))
       as (Hr & Hc & _ & _).
     unfold linit in *. rewrite Hc. exact Hr.
-  - apply fold_join_ok; auto. intros t Hin. apply in_map_iff in Hin as ([i p] & <- & Hin). simpl.
-    destruct (task_today draw lin parts i p r tf (c_clone driver (Z.of_nat i)) (In_combine_seq0 _ _ _ Hin) Hwf Htf (Hclone _))
+  - apply fold_join_ok_on; auto. intros t Hin. apply in_map_iff in Hin as ([i p] & <- & Hin). simpl.
+    destruct (task_today_on draw lin parts Sd i p r tf (c_clone driver (Z.of_nat i)) (In_combine_seq0 _ _ _ Hin) Hwf HS Htf (Hclone _))
       as (_ & _ & Hok & _). exact Hok.
   - destruct b; reflexivity.
 Qed.
+
+End Jobs.
+
+Lemma cache_ok_sub draw lin parts c c' :
+  (forall k d, In (k, d) c' -> In (k, d) c) -> cache_ok draw lin parts c -> cache_ok draw lin parts c'.
+Proof. apply cache_ok_sub_on. Qed.
+
+Theorem dist_job draw lin parts r tf driver : wf lin r -> tfun_pure tf = true -> cache_ok draw lin parts driver ->
+  forall b sched sh,
+  let o := run_job draw b today r tf parts sched driver sh in
+  o_results o = spec_results draw r tf parts /\ cache_ok draw lin parts (o_driver o) /\ o_shared o = sh.
+Proof. intros Hwf Htf Hd. apply (dist_job_on draw lin parts (fun _ => True)); auto. Qed.
+
+Section Jobs2.
+Variable draw : Z -> nat -> float.
+Variable lin : Z -> rdd.
+Variable parts : list (list Z).
+Notation cache_ok := (cache_ok draw lin parts).
 
 (* the default executor *)
 Lemma local_from r tf sh : wf lin r -> tfun_pure tf = true ->
@@ -905,7 +934,7 @@ Theorem history_dist b js : Forall job_ok js -> forall driver sh, cache_ok drive
 Proof.
   induction 1 as [|[[r tf] sched] js [Hwf Htf] _ IH]; intros driver sh Hd; simpl; [auto|].
   simpl in Hwf, Htf.
-  destruct (dist_job r tf driver Hwf Htf Hd b sched sh) as (Hr & Hc & Hs).
+  destruct (dist_job draw lin parts r tf driver Hwf Htf Hd b sched sh) as (Hr & Hc & Hs).
   destruct (IH _ (o_shared (run_job draw b today r tf parts sched driver sh)) Hc) as [IH1 IH2].
   destruct (run_jobs draw b today js parts _ _) as [rs d]. simpl in *. rewrite Hr, IH1. auto.
 Qed.
@@ -921,7 +950,7 @@ Proof.
   destruct (run_jobs_local draw today js parts d' sh) as [rs d]. simpl in *. rewrite IH1. auto.
 Qed.
 
-End Jobs.
+End Jobs2.
 
 (* ------------------------------------------------------------------------------------------- *)
 (* independence of schedule and backend for every local task program; stamps; refutations of the variants *)
@@ -1069,8 +1098,6 @@ Proof.
       apply key_eqb_eq in E. subst k'. exfalso. apply Hk. unfold c_keys. apply in_map_iff. exists (k, v'). auto.
 Qed.
 
-Fixpoint ids (r : rdd) : list Z :=
-  match r with Src => [] | Map _ r' => ids r' | Sample _ _ r' => ids r' | Persist id r' => id :: ids r' end.
 Fixpoint size (r : rdd) : nat :=
   match r with Src => 0 | Map _ r' => S (size r') | Sample _ _ r' => S (size r') | Persist _ r' => S (size r') end.
 
@@ -1504,6 +1531,92 @@ Theorem job_events_own_trace draw parts b v r tf sched driver sh :
 Proof.
   intros Hp tid part Hn. unfold run_job. simpl.
   exact (job_events draw parts b (task_prog v r tf) sched driver sh Hp tid part Hn).
+Qed.
+
+(* ------------------------------------------------------------------------------------------- *)
+(* unpersist *)
+Lemma c_unpersist_In n id c k d : In (k, d) (c_unpersist n id c) -> In (k, d) c.
+Proof. unfold c_unpersist. rewrite filter_In. tauto. Qed.
+
+Lemma c_unpersist_not n id c k d :
+  In (k, d) (c_unpersist n id c) -> ~ (fst k = id /\ 0 <= snd k < Z.of_nat n).
+Proof.
+  unfold c_unpersist. rewrite filter_In. simpl. intros [_ H] (H1 & H2 & H3).
+  apply negb_true_iff in H. rewrite !andb_false_iff in H.
+  destruct H as [[H|H]|H].
+  - apply Z.eqb_neq in H. auto.
+  - apply Z.leb_gt in H. lia.
+  - apply Z.ltb_ge in H. lia.
+Qed.
+
+Lemma c_unpersist_keeps n id c k d : In (k, d) c -> fst k <> id -> In (k, d) (c_unpersist n id c).
+Proof.
+  intros Hin Hne. unfold c_unpersist. apply filter_In. split; auto. simpl.
+  apply negb_true_iff. apply Z.eqb_neq in Hne. rewrite Hne. reflexivity.
+Qed.
+
+(* after unpersist() no partition of the dataset is cached: the next action on it misses everywhere *)
+Lemma c_unpersist_gone n id c i : (i < n)%nat -> c_get (c_unpersist n id c) (id, Z.of_nat i) = None.
+Proof.
+  intros Hi. apply c_get_notin. intros k' d' Hin Heq. subst k'.
+  apply (c_unpersist_not _ _ _ _ _ Hin). simpl. lia.
+Qed.
+
+Lemma cache_ok_unpersist draw lin parts n id c :
+  cache_ok draw lin parts c -> cache_ok draw lin parts (c_unpersist n id c).
+Proof. apply cache_ok_sub. intros k d. apply c_unpersist_In. Qed.
+
+Definition step_ok (lin : Z -> rdd) (s : step) : Prop :=
+  match s with SJob j => job_ok lin j | SUnpersist _ => True end.
+
+Fixpoint jobs_of (ss : list step) : list jobspec :=
+  match ss with [] => [] | SJob j :: ss' => j :: jobs_of ss' | SUnpersist _ :: ss' => jobs_of ss' end.
+
+(* histories with unpersist() between the jobs: pool = default executor, step by step and for the final cache *)
+Theorem steps_pool_equals_default draw lin parts b ss :
+  Forall (step_ok lin) ss -> forall driver sh, cache_ok draw lin parts driver ->
+  run_steps draw b today ss parts driver sh = run_steps_local draw today ss parts driver sh /\
+  fst (run_steps draw b today ss parts driver sh)
+    = map (fun j => spec_results draw (fst (fst j)) (snd (fst j)) parts) (jobs_of ss) /\
+  cache_ok draw lin parts (snd (run_steps draw b today ss parts driver sh)).
+Proof.
+  induction 1 as [|s ss Hs _ IH]; intros driver sh Hd; [simpl; auto|].
+  destruct s as [[[r tf] sched]|id].
+  - destruct Hs as [Hwf Htf]. simpl in Hwf, Htf. cbn [run_steps run_steps_local jobs_of map].
+    destruct (dist_job draw lin parts r tf driver Hwf Htf Hd b sched sh) as (Hr & Hc & Hsh).
+    pose proof (dist_cache_eq_local draw lin parts r Hwf driver Hd tf Htf b sched sh) as Hcache.
+    destruct (local_job draw lin parts r tf driver sh Hwf Htf Hd) as (d' & E & Hd').
+    rewrite E in Hcache. cbn [fst snd] in Hcache. rewrite E.
+    rewrite Hsh, Hcache, Hr.
+    destruct (IH d' sh Hd') as (IH1 & IH2 & IH3). rewrite <- IH1.
+    destruct (run_steps draw b today ss parts d' sh) as [rs d]. simpl in *. rewrite IH2. auto.
+  - cbn [run_steps run_steps_local jobs_of]. apply IH. apply cache_ok_unpersist; auto.
+Qed.
+
+(* freshness: whatever stale entries the cache holds (no assumption that they are right), once the persisted datasets
+   of a lineage have been unpersisted the next action on it returns the data of the CURRENT source *)
+Definition idx_in_range (n : nat) (c : cache) : Prop := forall k d, In (k, d) c -> 0 <= snd k < Z.of_nat n.
+Definition unpersist_all (n : nat) (l : list Z) (c : cache) : cache := fold_left (fun c id => c_unpersist n id c) l c.
+
+Lemma unpersist_all_In n l : forall c k d, In (k, d) (unpersist_all n l c) ->
+  In (k, d) c /\ (0 <= snd k < Z.of_nat n -> ~ In (fst k) l).
+Proof.
+  unfold unpersist_all. induction l as [|id l IH]; simpl; intros c k d Hin; [tauto|].
+  destruct (IH _ _ _ Hin) as [H1 H2]. split; [eapply c_unpersist_In; eauto|].
+  intros Hr [Heq|Hl]; [|apply (H2 Hr Hl)].
+  apply (c_unpersist_not _ _ _ _ _ H1). auto.
+Qed.
+
+Theorem unpersist_then_fresh draw lin parts r tf driver :
+  wf lin r -> tfun_pure tf = true -> idx_in_range (length parts) driver ->
+  forall b sched sh,
+  o_results (run_job draw b today r tf parts sched (unpersist_all (length parts) (ids r) driver) sh)
+  = spec_results draw r tf parts.
+Proof.
+  intros Hwf Htf Hidx b sched sh.
+  apply (dist_job_on draw lin parts (fun id => In id (ids r)) r tf _ Hwf (fun id H => H) Htf).
+  intros k d Hin HS. exfalso.
+  destruct (unpersist_all_In _ _ _ _ _ Hin) as [H1 H2]. apply H2; auto. apply (Hidx _ _ H1).
 Qed.
 
 Theorem sample_job draw lin parts s fr r tf driver :
